@@ -176,9 +176,10 @@ impl Cx {
   /// references, ...) executed in a CHILD process (this binary with `--probe <index>`): an unbounded recursion there
   /// overflows the stack and aborts the child only, so the shard survives, can name entry point and input class in the
   /// signature, and goes on with the remaining probes. Outcomes: returned (held), panicked / died / did not return
-  /// within `ISOLATED_LIMIT_S` (violations), or the child could not be started (counted, not judged).
+  /// within `ISOLATED_LIMIT_S` (violations), or the child could not be started (counted, not judged). Returns `false`
+  /// when a violation was reported.
   #[allow(dead_code)]
-  pub fn isolated(&mut self, entry: &str, class: &str, inp: In, probe: usize) {
+  pub fn isolated(&mut self, entry: &str, class: &str, inp: In, probe: usize) -> bool {
     self.tick(entry, inp);
     self.rep.inc("isolated_probes");
     self.rep.distinct("nontrivial", &format!("{}|isolated|{}", entry, class));
@@ -186,7 +187,7 @@ impl Cx {
       Ok(e) if !cfg!(miri) => e,
       _ => {
         self.rep.inc("isolated_unavailable");
-        return;
+        return true;
       }
     };
     let mut cmd = std::process::Command::new(exe);
@@ -200,7 +201,7 @@ impl Cx {
       Ok(c) => c,
       Err(_) => {
         self.rep.inc("isolated_unavailable");
-        return;
+        return true;
       }
     };
     // liveness only: the limit is four orders of magnitude above the normal duration of a probe (milliseconds)
@@ -222,7 +223,7 @@ impl Cx {
       Ok(o) => o,
       Err(_) => {
         self.rep.inc("isolated_unavailable");
-        return;
+        return true;
       }
     };
     let stdout = String::from_utf8_lossy(&out.stdout).into_owned();
@@ -235,6 +236,7 @@ impl Cx {
     } else if let Some(rest) = verdict.strip_prefix("PROBE-RETURNED ") {
       self.rep.inc("isolated_returned");
       self.rep.inc(if rest.starts_with("ok") { "accepted" } else { "rejected" });
+      return true;
     } else if let Some(rest) = verdict.strip_prefix("PROBE-PANIC\t") {
       let mut it = rest.splitn(3, '\t');
       let file = it.next().unwrap_or("<unknown>").to_string();
@@ -265,6 +267,7 @@ impl Cx {
         json!({"entry": entry, "family": self.fam, "class": class, "probe": probe, "input": inp.json(), "stderr_tail": tail, "case": self.case, "reproduce": format!("c05 --scale {} --probe {}", self.scale, probe)}),
       );
     }
+    false
   }
 
   /// Accessor / formatter / serialiser applied to an accepted value.
